@@ -81,6 +81,7 @@ let parse_op (toks : string list) : op =
   | ["filename"; p] -> OFilename (ps p)
   | ["extension"; p] -> OExtension (ps p)
   | ["isroot"; p] -> OIsRoot (ps p)
+  | ["eq"; p; q] -> OPathEq (ps p, ps q)
   | ["exists"; p] -> OExists (ps p)
   | ["metadata"; p] -> OMetadata (ps p)
   | ["isfile"; p] -> OIsFile (ps p)
@@ -243,6 +244,7 @@ let () =
             let get j = List.nth (List.rev cur.cfg) (int_of_string j) in
             let f = (match rest with
               | ["base"; i] -> FBase (k, nat_of_int (int_of_string i))
+              | ["unit"; i] -> FBase (k, nat_of_int (int_of_string i))   (* a stateless user filesystem: only path operations are run on it *)
               | ["alt"; j; p] -> FAlt (k, get j, prs (unhex p))
               | "ovl" :: _n :: layers ->
                   let rec pairs = function a :: b :: r -> (get a, prs (unhex b)) :: pairs r | _ -> [] in
